@@ -33,6 +33,7 @@ type report struct {
 	MapSites   []string `json:"map_range_sites_rewritten"`
 	Refused    []string `json:"map_range_sites_refused"`
 	LockSites  []string `json:"lock_types_replaced"`
+	IOSites    []string `json:"file_system_calls_wrapped"`
 	RewroteSrc []string `json:"files_rewritten"`
 }
 
@@ -187,6 +188,11 @@ func rewrite(dir string, rep *report) error {
 	return nil
 }
 
+var ioWrappers = map[string]string{"Create": "OsCreate", "OpenFile": "OsOpenFile", "Open": "OsOpen", "Rename": "OsRename", "MkdirAll": "OsMkdirAll",
+	"ReadFile": "OsReadFile", "WriteFile": "OsWriteFile", "Remove": "OsRemove"}
+
+var zipWrappers = map[string]string{"Create": "ZipCreate", "CreateHeader": "ZipCreateHeader", "Close": "ZipClose"}
+
 var uniq int
 
 func fresh(prefix string) *ast.Ident {
@@ -266,6 +272,54 @@ func rewriteFile(p *packages.Package, f *ast.File, name, dir string, rep *report
 			c.Replace(&ast.SelectorExpr{X: ast.NewIdent("verifrt"), Sel: ast.NewIdent(sel.Sel.Name)})
 			changed, usesRT = true, true
 		}
+		return true
+	}, nil)
+
+	// 1b. file-system calls -> verifrt wrappers (yield point + injectable failure)
+	astutil.Apply(f, func(c *astutil.Cursor) bool {
+		sel, ok := c.Node().(*ast.SelectorExpr)
+		if !ok {
+			return true
+		}
+		id, ok := sel.X.(*ast.Ident)
+		if !ok {
+			return true
+		}
+		pn, ok := p.TypesInfo.Uses[id].(*types.PkgName)
+		if !ok || pn.Imported().Path() != "os" {
+			return true
+		}
+		if w, ok := ioWrappers[sel.Sel.Name]; ok {
+			pos := p.Fset.Position(sel.Pos())
+			rep.IOSites = append(rep.IOSites, fmt.Sprintf("%s:%d os.%s", rel, pos.Line, sel.Sel.Name))
+			c.Replace(&ast.SelectorExpr{X: ast.NewIdent("verifrt"), Sel: ast.NewIdent(w)})
+			changed, usesRT = true, true
+		}
+		return true
+	}, nil)
+
+	// 1c. (*archive/zip.Writer).Create / CreateHeader / Close -> verifrt wrappers: entry boundaries are yield points
+	astutil.Apply(f, func(c *astutil.Cursor) bool {
+		call, ok := c.Node().(*ast.CallExpr)
+		if !ok {
+			return true
+		}
+		sel, ok := call.Fun.(*ast.SelectorExpr)
+		if !ok {
+			return true
+		}
+		w, ok := zipWrappers[sel.Sel.Name]
+		if !ok {
+			return true
+		}
+		t := p.TypesInfo.TypeOf(sel.X)
+		if t == nil || t.String() != "*archive/zip.Writer" {
+			return true
+		}
+		pos := p.Fset.Position(sel.Pos())
+		rep.IOSites = append(rep.IOSites, fmt.Sprintf("%s:%d zip.Writer.%s", rel, pos.Line, sel.Sel.Name))
+		c.Replace(&ast.CallExpr{Fun: &ast.SelectorExpr{X: ast.NewIdent("verifrt"), Sel: ast.NewIdent(w)}, Args: append([]ast.Expr{sel.X}, call.Args...)})
+		changed, usesRT = true, true
 		return true
 	}, nil)
 
@@ -365,6 +419,9 @@ func rewriteFile(p *packages.Package, f *ast.File, name, dir string, rep *report
 		astutil.AddImport(p.Fset, f, rtImport)
 		if !astutil.UsesImport(f, "sync") {
 			astutil.DeleteImport(p.Fset, f, "sync")
+		}
+		if !astutil.UsesImport(f, "os") {
+			astutil.DeleteImport(p.Fset, f, "os")
 		}
 	}
 	return changed
